@@ -222,6 +222,10 @@ pub fn c07(ctx: &Ctx) -> PropResult {
             cases.push(Case::new(Kind::Lex, src).tag("newline-after-token").aux(kind.clone()));
         }
     }
+    // words that become keywords only through a Unicode case mapping
+    for src in crate::props6::case_mapping_words() {
+        cases.push(Case::new(Kind::Lex, src).tag("case-mapping-words"));
+    }
     // digit runs around the largest double
     for src in crate::props6::huge_literal_family() {
         cases.push(Case::new(Kind::Lex, src).tag("huge-literal"));
@@ -281,7 +285,7 @@ pub fn c07(ctx: &Ctx) -> PropResult {
     let stats = run_cases(&ctx.driver, cases, &lex_oracle, &no_known, ctx.threads);
     PropResult {
         stats,
-        rule: format!("every string of length <= {max_len} over a {}-symbol lexical alphabet (exhaustive), random strings to 24 units, mutated repository programs; non-trivial = at least two tokens before end-of-input, or a lexical error; 24 characters that tools put into files or that belong to other scripts (U+FEFF, no-break / zero-width spaces, line / paragraph separators, NEL, VT, FF, other digits and letters, U+10FFFF) at offset 0, after and between every symbol of the alphabet and in 21 program contexts; names that begin with a keyword after every statement-ending token; for every token kind a newline / comment + newline / CR LF / blank lines after it: a terminator token exactly for the kinds the property names; digit runs around the largest double (the digits of f64::MAX, of the rounding boundary to infinity, 307 .. 1000 digits)", LEX_ALPHABET.len()),
+        rule: format!("every string of length <= {max_len} over a {}-symbol lexical alphabet (exhaustive), random strings to 24 units, mutated repository programs; non-trivial = at least two tokens before end-of-input, or a lexical error; 24 characters that tools put into files or that belong to other scripts (U+FEFF, no-break / zero-width spaces, line / paragraph separators, NEL, VT, FF, other digits and letters, U+10FFFF) at offset 0, after and between every symbol of the alphabet and in 21 program contexts; names that begin with a keyword after every statement-ending token; for every token kind a newline / comment + newline / CR LF / blank lines after it: a terminator token exactly for the kinds the property names; digit runs around the largest double (the digits of f64::MAX, of the rounding boundary to infinity, 307 .. 1000 digits); words that become keywords only through a Unicode case mapping", LEX_ALPHABET.len()),
         exhaustive: false,
         notes: vec![],
     }
@@ -524,10 +528,21 @@ pub fn c08(ctx: &Ctx) -> PropResult {
     for src in crate::props6::escape_forms() {
         cases.push(Case::new(Kind::Parse, src).tag("escape-forms"));
     }
+    // (appended) statements that break off at every point with the input ending right after; invalid assignment
+    // targets under 1 .. 64 pairs of parentheses; words that become keywords through a Unicode case mapping
+    for src in crate::props6::truncated_imports() {
+        cases.push(Case::new(Kind::Parse, src).tag("truncated-statement"));
+    }
+    for src in crate::props6::deep_invalid_targets() {
+        cases.push(Case::new(Kind::Parse, src).tag("deep-invalid-target"));
+    }
+    for src in crate::props6::case_mapping_words() {
+        cases.push(Case::new(Kind::Parse, src).tag("case-mapping-words"));
+    }
     let stats = run_cases(&ctx.driver, cases, &parse_oracle, &no_known, ctx.threads);
     PropResult {
         stats,
-        rule: format!("every sequence of <= {max_len} tokens over all {k} token kinds rendered to text (exhaustive), random sequences to 10 tokens, every string of length <= 2 over the lexical alphabet, token deletion/duplication/transposition/truncation of repository programs, bracket nesting to depth 200; every diagnostic is rendered with {{:?}}; non-trivial = the text lexes (parser reached); IMPORT with every string position empty / blank / odd in nine forms; characters of other scripts and invisible characters at the start of a token in sixteen contexts; 1 .. 300 repetitions of seven kinds of syntax error; string literals with escape forms of other languages"),
+        rule: format!("every sequence of <= {max_len} tokens over all {k} token kinds rendered to text (exhaustive), random sequences to 10 tokens, every string of length <= 2 over the lexical alphabet, token deletion/duplication/transposition/truncation of repository programs, bracket nesting to depth 200; every diagnostic is rendered with {{:?}}; non-trivial = the text lexes (parser reached); IMPORT with every string position empty / blank / odd in nine forms; characters of other scripts and invisible characters at the start of a token in sixteen contexts; 1 .. 300 repetitions of seven kinds of syntax error; string literals with escape forms of other languages; statements breaking off at every point with the input ending after the line break; invalid assignment targets under 1 .. 64 pairs of parentheses"),
         exhaustive: false,
         notes: vec![],
     }
